@@ -163,7 +163,17 @@ func (c *Calcium) doReplaceWorkload(
 					removeMessage.Success = true
 					return
 				},
-				nil,
+				// rollback: the old workload stays, so the new one must not stay with it
+				func(ctx context.Context, failureByCond bool) error {
+					if failureByCond {
+						return nil
+					}
+					newWorkload, err := c.GetWorkload(ctx, createMessage.WorkloadID)
+					if err != nil {
+						return err
+					}
+					return c.doRemoveWorkload(ctx, newWorkload, true)
+				},
 				c.config.GlobalTimeout,
 			)
 		},
